@@ -20,7 +20,7 @@ type WOp struct {
 	K    string `json:"k"` // start cancel put putmany casok casbad delete create advance
 	Key  int    `json:"key,omitempty"`
 	W    int    `json:"w,omitempty"`    // cancel: index into the live waiters (modulo)
-	Ver  int    `json:"ver,omitempty"`  // start: 0 current version, 1 a stale version, 2 unknown (garbage) version
+	Ver  int    `json:"ver,omitempty"`  // start: 0 current version, 1 a stale version, 2 unknown (garbage) version, 4.. a near miss of the current version (other letter case, blanks, one character off)
 	Pre  bool   `json:"pre,omitempty"`  // start: the context is already cancelled
 	Gate bool   `json:"gate,omitempty"` // start: the waiter is held at its first ctx.Done() (after it registered, before it parks) until an "ungate" step
 	Two  bool   `json:"two,omitempty"`  // putmany: both keys
@@ -208,6 +208,9 @@ func runWait(c WCase, env *WEnv, info *WInfo, livep *[]*wtr) *vstat.Violation {
 				arg, w.argGen = s.ver, s.gen
 			case op.Ver == 1 && len(s.old) > 0:
 				arg = s.old[len(s.old)-1]
+			case op.Ver >= 4 && alive(k) && s.ver != "":
+				arg = NearMiss(s.ver, op.Ver-4)
+				info.class("near_miss_version")
 			}
 			wctx, cancel := context.WithCancel(ctx)
 			w.cancel = cancel
